@@ -599,3 +599,12 @@ Proof. vm_compute. reflexivity. Qed.
 Example ex_cols_union : op_union (VA (unorm [] (colrange 1 3))) (VA (ARange [] 2 2 4 5))
   = Ok (VA (ARange [] 1 0 4 1048575)).
 Proof. vm_compute. reflexivity. Qed.
+(* a bounded operand next to an unbounded one; a probe cell for the containment theorem *)
+Example ex_uwf_bounded : uwf {| x1 := 2; y1 := 2; x2 := 4; y2 := 5 |}
+  /\ no_edge (colrange 1 3) {| x1 := 2; y1 := 2; x2 := 4; y2 := 5 |}
+  /\ ~ no_edge (colrange 1 3) {| x1 := 2; y1 := 5; x2 := 2; y2 := 1048576 |}
+  /\ 1 <= 2 <= MAX_COL /\ 1 <= 1048576 <= MAX_ROW.
+Proof.
+  split; [split; left; cbn; unfold MAX_COL, MAX_ROW; lia|].
+  unfold no_edge, MAX_COL, MAX_ROW. cbn. lia.
+Qed.
